@@ -74,7 +74,7 @@ func main() {
 		}
 		n++
 		for _, d := range ds {
-			want := absmodel.Expected(d.d, p.Diff)
+			want := absmodel.ExpectedFor(d.d, p.From, p.To, p.Diff)
 			for _, w := range want {
 				parts := strings.Fields(w)
 				cl := parts[0]
